@@ -125,7 +125,17 @@ def Tbl.gotOf (t : Tbl) (name X : String) : List SEv :=
   (t.got.filter (fun p => p.1 == name && p.2.1 == X)).map (·.2.2)
 
 /-- the topics an event collected on `T` can possibly arrive at -/
-def candidates (specs : List Spec) (T : String) : List String := (T :: specs.flatMap (·.targets)).eraseDups
+def dedup : List String → List String
+  | [] => []
+  | a :: l => if (dedup l).contains a then dedup l else a :: dedup l
+
+def candidates (specs : List Spec) (T : String) : List String := dedup (T :: specs.flatMap (·.targets))
+
+/-- where the event of `collect T ev` arrives, and seen as what: the pull, asked for every candidate topic -/
+def Tbl.hits (t : Tbl) (T : String) (ev : SEv) : List (String × SEv) :=
+  (candidates t.specs T).filterMap (fun X =>
+    (pull t.specs (fun Y id => lastLevel (t.arrOf Y) id) T { ev with prev := 0 } (t.specs.length + 1) X).map
+      (fun e => (X, e)))
 
 def Tbl.step (t : Tbl) : Svc.Op → Tbl
   | .recorder T n => if t.regs.contains (T, n) then t else { t with regs := t.regs ++ [(T, n)] }
@@ -134,11 +144,8 @@ def Tbl.step (t : Tbl) : Svc.Op → Tbl
   | .dereg T hid => { t with specs := t.specs.filter (fun x => !(x.topic == T && x.hid == hid)) }
   | .upd T old sp => { t with specs := t.specs.filter (fun x => !(x.topic == T && x.hid == old)) ++ [sp] }
   | .collect T ev =>
-    let hits := (candidates t.specs T).filterMap (fun X =>
-      (pull t.specs (fun Y id => lastLevel (t.arrOf Y) id) T { ev with prev := 0 } (t.specs.length + 1) X).map
-        (fun e => (X, e)))
-    { t with arr := t.arr ++ hits,
-             got := t.got ++ hits.flatMap (fun h =>
+    { t with arr := t.arr ++ t.hits T ev,
+             got := t.got ++ (t.hits T ev).flatMap (fun h =>
                (t.regs.filter (fun r => r.1 == h.1)).map (fun r => (r.2, h.1, h.2))) }
 
 def Tbl.run (ops : List Svc.Op) : Tbl := ops.foldl Tbl.step {}
